@@ -4,7 +4,7 @@ Proved on the real code (all obligations discharged by z3, cvc5 in the thorough 
 * `unit_intervals.formula`        get_unit_prediction_intervals: the unit-level formula and floors (fit under contract).
 * `group_statistics.<level>`      GaussianModel._fit (real body, groupby.apply on the generic group's rows): one row per group
                                   with calibration rows; kappa = sum w^2/(sum w)^2, weighted-median centres, bootstrapped scales --
-                                  every statistic over exactly the group's OWN calibration rows (keyed statistics, A-WM / A-SIGMA).
+                                  every statistic over exactly the group's OWN calibration rows (keyed statistics; weighted_median proved, A-SIGMA assumed).
 * `fit_cascade_step.<aggregate>`  one step of GaussianModel.fit: threshold min(10, #cal); single fit iff no group (with calibration
                                   or outstanding units) is below it; otherwise the parent level gets all the data and the same
                                   level EXACTLY the calibration / reporting / outstanding rows of the large groups.
@@ -33,7 +33,7 @@ GA = C03.GA
 GM = "elexmodel.distributions.GaussianModel.GaussianModel"
 EXPLANATION = "proved from the real AST: per-group statistics, the fallback cascade and its result table (induction over the recursion, own contract at the recursive calls), the matching loop and the interval formula of the aggregate function; a bounded end-to-end companion on real pandas/floats is kept"
 ASSUMPTIONS = C03.ASSUMPTIONS + [
-    "A-WM: math_utils.weighted_median(x, w) is a finite function of the multiset of (x_i, w_i) of the rows it is given (its body is not verified here)",
+    "weighted_median: its BODY is verified (units weighted_median.body: the result has at most half the weight below and at most half above, no index out of range; weighted_median.order_insensitive: for weights > 0 the result is characterised by the weight totals below / up to each score, which do not depend on the order of the rows -- so it is a statistic of the multiset of rows) under the library contracts A-ARGSORT (np.argsort is a permutation that sorts), A-CUMSUM (np.cumsum recurrence), A-WHERE (np.where(mask)[0] = positions of the mask, increasing) and floats as reals (the float test `== 0.5` is taken exactly); callers owe: >= 1 row, weights > 0 that sum to 1 (obligations weighted_median.call*.pre.*)",
     "A-SIGMA: math_utils.boot_sigma (scipy.stats.bootstrap, seeded) is a finite positive function of the multiset of its rows' data and (conf, winsorize, seed)",
     "scipy.stats.norm.ppf(q, loc, scale) = loc + scale*z_q; numpy.sqrt / round as axiomatised functions (s>=0, s*s=x; |round(x)-x|<=1/2, whole, identity on whole numbers)",
     "termination of the recursion of GaussianModel.fit is not proved (partial correctness); the >=1 calibration row precondition of the aggregate function is C14.gaussian.split",
@@ -266,6 +266,168 @@ def _spec_stats(h, t, inCal, keys, alpha, settings):
     out["sigma_upper_bound"] = settings["beta"] * sums.formal_stat(ctx, "bootsigma", t.root, dom, [up], extra)[0]
     out["_W"] = dW
     return gs, dom, out
+
+
+# ---- the BODY of math_utils.weighted_median (what "weighted-median centre" means) ---------------------------------------
+def _wm_run(h, strict):
+    """run the real body on arrays of any length n >= 1 whose weights are >= 0 (> 0 if strict) and sum to 1"""
+    from pyvc import posarr, sums
+
+    n = h.int("n")
+    h.requires("at_least_one_row", n >= 1)
+    world = posarr.PosWorld(h.interp, "wm", n.t, f"{h.udesc['prop']}.{h.udesc['name']}")
+    x, w = world.array("wm_x"), world.array("wm_w")
+    h.syms["wm_x"], h.syms["wm_w"] = z3.Function("wm_x", z3.IntSort(), z3.RealSort()), z3.Function("wm_w", z3.IntSort(), z3.RealSort())
+    u = world.rows.u
+    i = z3.Int("i!wm")
+    h.ctx.assume(z3.ForAll([i], z3.Implies(z3.And(i >= 0, i < n.t), (w.fn(i) > 0) if strict else (w.fn(i) >= 0))))  # every row
+    h.ctx.assume((w.fn(u) > 0) if strict else (w.fn(u) >= 0))
+    h.n_requires += 1
+    total_rows, d_total_rows = sums.formal_sum_dom(h.ctx, world.rows, z3.BoolVal(True), w.fn(u))
+    h.requires("weights_sum_to_one", total_rows == 1)
+    posarr.install(h.interp, world)
+    world.instantiate(z3.IntVal(0))
+    world.instantiate(n.t - 1)
+
+    def rp(ev):
+        return {"target": "verif_replays:weighted_median_replay", "args": [], "check": "result['exc'] is None and result['ok']"}
+
+    h.default_replay = rp
+    kind, res = h.call(WM, x, w)
+    if kind == "raise":
+        h.fail("no_exception", f"raised {res}", replay=rp)
+        return None
+    h.ensures("returns_a_number", isinstance(res, V) and res.is_scalar and not z3.is_bool(res.t), replay=rp)
+    m = real(res.t)
+    # the sorted views and the running total the body built (ghost: found among the values the interpreter created)
+    views = [v_ for v_ in h.interp.__dict__.get("_posarr_views", [])]
+    xs = next((v_ for v_ in views if v_.src is x), None)
+    ws = next((v_ for v_ in views if v_.src is w), None)
+    cum = next((v_ for v_ in views if getattr(v_, "cum_of", None) is ws and ws is not None), None)
+    h.ensures("ghost.sorted_scores_sorted_weights_and_their_running_total_exist", xs is not None and ws is not None and cum is not None)
+    if xs is None or ws is None or cum is None:
+        return None
+    return world, x, w, xs, ws, cum, m, d_total_rows, rp
+
+
+@unit("C15", "weighted_median.body", fns=[WM])
+def weighted_median_body(h):
+    """the real body of math_utils.weighted_median on arrays of any length n >= 1 with weights >= 0 that sum to 1 (what its
+    caller GaussianModel._fit passes: w_i / sum w): on each of its three return paths the result m is a WEIGHTED MEDIAN of the
+    rows it was given -- the weight of the rows below m is at most 1/2 and the weight of the rows above m is at most 1/2 --
+    and no index is out of range"""
+    from pyvc import posarr, sums
+
+    r = _wm_run(h, strict=False)
+    if r is None:
+        return
+    world, x, w, xs, ws, cum, m, d_total_rows, rp = r
+    lt = lambda s_: s_ < m  # noqa: E731
+    le = lambda s_: s_ <= m  # noqa: E731
+    gt = lambda s_: s_ > m  # noqa: E731
+    # over the rows as the caller passed them
+    below, d_below = posarr.score_sum(world, x, w, lt)
+    upto, d_upto = posarr.score_sum(world, x, w, le)
+    above, d_above = posarr.score_sum(world, x, w, gt)
+    sums.lemma_sum_split(h.ctx, d_total_rows, d_upto, d_above, name=f"{world.prefix}.lemma.split_at_m")
+    # the same totals over the sorted view (perm_filter_sum), and against the running total (prefix_in / prefix_out)
+    # (the running total ends at the total, and a permutation keeps the total: applied by the theory entries themselves)
+    posarr.lemma_perm_filter_sum(world, xs, ws, lt, "lemma.perm.below")
+    posarr.lemma_perm_filter_sum(world, xs, ws, le, "lemma.perm.upto")
+    posarr.lemma_prefix(world, xs, ws, cum, lt, "lemma.prefix.below")
+    posarr.lemma_prefix(world, xs, ws, cum, le, "lemma.prefix.upto")
+    half = z3.RealVal("1/2")
+    h.ensures("weight_of_the_rows_below_the_result_is_at_most_half", below <= half, replay=rp)
+    h.ensures("weight_of_the_rows_above_the_result_is_at_most_half", above <= half, replay=rp)
+
+
+@unit("C15", "weighted_median.order_insensitive", fns=[WM])
+def weighted_median_order(h):
+    """with strictly positive weights (the caller's: (previous result + 1) / total) the result is a function of the MULTISET of
+    the rows -- the content of assumption A-WM.  Proved in two steps over Wlt(v) / Wle(v) := weight of the rows with score
+    < v / <= v, which do not depend on the order of the rows (perm_filter_sum):
+      (characterisation) on every return path the result m is either a score that occurs with Wlt(m) < 1/2 < Wle(m), or the
+          midpoint of two scores a, b that occur with Wle(a) = 1/2 = Wlt(b);
+      (uniqueness) any two numbers characterised this way are equal."""
+    from pyvc import posarr, sums
+
+    r = _wm_run(h, strict=True)
+    if r is None:
+        return
+    world, x, w, xs, ws, cum, m, d_total_rows, rp = r
+    ctx = h.ctx
+    half = z3.RealVal("1/2")
+    pts = [p for p in world.points if not (z3.eq(p, world.pos.u) or z3.eq(p, world.pos.u2))]
+    Wlt, Wle, dlt, dle = {}, {}, {}, {}
+
+    def totals(v, tag):
+        """Wlt(v), Wle(v) over the caller's rows, tied to the running total of the sorted view"""
+        key = v.get_id()
+        if key in Wlt:
+            return
+        h.interp.__dict__.setdefault("_keep", []).append(v)
+        lt = lambda s_, v=v: s_ < v  # noqa: E731
+        le = lambda s_, v=v: s_ <= v  # noqa: E731
+        Wlt[key], dlt[key] = posarr.score_sum(world, x, w, lt)
+        Wle[key], dle[key] = posarr.score_sum(world, x, w, le)
+        posarr.lemma_perm_filter_sum(world, xs, ws, lt, f"lemma.perm.lt.{tag}")
+        posarr.lemma_perm_filter_sum(world, xs, ws, le, f"lemma.perm.le.{tag}")
+        posarr.lemma_prefix(world, xs, ws, cum, lt, f"lemma.prefix.lt.{tag}")
+        posarr.lemma_prefix(world, xs, ws, cum, le, f"lemma.prefix.le.{tag}")
+        sums.lemma_sum_nonneg(ctx, dlt[key], name=f"{world.prefix}.lemma.nonneg.lt.{tag}")
+
+    totals(m, "m")
+    for j, p in enumerate(pts):
+        totals(z3.simplify(real(xs.fn(p))), f"p{j}")
+    occ = lambda p: world.inr(p)  # noqa: E731  (xs[p] = x[pi[p]] is the score of a row)
+    P1 = [z3.And(occ(p), m == real(xs.fn(p)), Wlt[m.get_id()] < half, half < Wle[m.get_id()]) for p in pts]
+    P2 = []
+    for p in pts:
+        for q in pts:
+            a, b = z3.simplify(real(xs.fn(p))), z3.simplify(real(xs.fn(q)))
+            P2.append(z3.And(occ(p), occ(q), m == (a + b) / 2, Wle[a.get_id()] == half, Wlt[b.get_id()] == half))
+    rpo = lambda ev: {"target": "verif_replays:weighted_median_order_replay", "args": [], "check": "result['exc'] is None and result['ok']"}  # noqa: E731
+    h.ensures("characterisation.a_score_with_less_than_half_below_and_more_than_half_up_to_it_or_the_midpoint_of_the_two_scores_at_one_half", z3.Or(*(P1 + P2)), replay=rpo, replay_decides="another tie-breaking convention would also make the result a function of the multiset of rows")
+
+    # uniqueness: a standalone statement about ANY weights > 0 -- Wlt / Wle as functions of the threshold, with the two facts
+    # that hold for scores that occur:  v < v' => Wle(v) <= Wlt(v')  (sum_mono_dom)  and  Wlt(v) < Wle(v)  (sum_split +
+    # sum_ge_member with a positive weight); v <= v' => Wle(v) <= Wle(v')
+    F_lt = z3.Function("Wlt_of", z3.RealSort(), z3.RealSort())
+    F_le = z3.Function("Wle_of", z3.RealSort(), z3.RealSort())
+    names = ["r1", "a1", "b1", "r2", "a2", "b2"]
+    vals = {k: z3.Real(f"score_{k}") for k in names}
+    facts = []
+    for k in names:
+        facts.append(F_lt(vals[k]) < F_le(vals[k]))
+        for k2 in names:
+            facts.append(z3.Implies(vals[k] < vals[k2], F_le(vals[k]) <= F_lt(vals[k2])))
+            facts.append(z3.Implies(vals[k] <= vals[k2], F_le(vals[k]) <= F_le(vals[k2])))
+            facts.append(z3.Implies(vals[k] <= vals[k2], F_lt(vals[k]) <= F_lt(vals[k2])))
+    m1, m2 = z3.Real("m_first"), z3.Real("m_second")
+
+    def char(mm, r_, a_, b_):
+        return z3.Or(z3.And(mm == r_, F_lt(mm) < half, half < F_le(mm)), z3.And(mm == (a_ + b_) / 2, F_le(a_) == half, F_lt(b_) == half))
+
+    h.lemma("uniqueness.two_numbers_with_the_characterisation_are_equal", z3.Implies(z3.And(char(m1, vals["r1"], vals["a1"], vals["b1"]), char(m2, vals["r2"], vals["a2"], vals["b2"])), m1 == m2), assumptions=facts)
+    # the facts about scores that occur, proved for two ARBITRARY rows i1, i2 of the caller's arrays from the sum lemmas
+    i1, i2 = z3.Int("row_i1"), z3.Int("row_i2")
+    ctx.assume(z3.And(world.inr(i1), world.inr(i2)))
+    v1, v2 = real(x.fn(i1)), real(x.fn(i2))
+    le1, d_le1 = posarr.score_sum(world, x, w, lambda s_: s_ <= v1)
+    lt1, d_lt1 = posarr.score_sum(world, x, w, lambda s_: s_ < v1)
+    le2, d_le2 = posarr.score_sum(world, x, w, lambda s_: s_ <= v2)
+    lt2, d_lt2 = posarr.score_sum(world, x, w, lambda s_: s_ < v2)
+    eq2, d_eq2 = posarr.score_sum(world, x, w, lambda s_: s_ == v2)
+    pre = f"{world.prefix}.lemma"
+    sums.lemma_sum_split(ctx, d_le2, d_lt2, d_eq2, name=f"{pre}.split_le_into_lt_and_eq")
+    sums.lemma_sum_ge_member(ctx, d_eq2, i2, name=f"{pre}.the_class_of_a_score_holds_its_row")
+    h.ensures("fact.a_score_that_occurs_carries_positive_weight", lt2 < le2)
+    sums.lemma_sum_mono_dom(ctx, d_le1, d_lt2, name=f"{pre}.mono.le_lt", guard=v1 < v2)
+    h.ensures("fact.monotone.le_of_a_smaller_score_is_at_most_lt_of_a_larger_one", z3.Implies(v1 < v2, le1 <= lt2))
+    sums.lemma_sum_mono_dom(ctx, d_le1, d_le2, name=f"{pre}.mono.le_le", guard=v1 <= v2)
+    h.ensures("fact.monotone.le", z3.Implies(v1 <= v2, le1 <= le2))
+    sums.lemma_sum_mono_dom(ctx, d_lt1, d_lt2, name=f"{pre}.mono.lt_lt", guard=v1 <= v2)
+    h.ensures("fact.monotone.lt", z3.Implies(v1 <= v2, lt1 <= lt2))
 
 
 SETTINGS = dict(save_conformalization=False, election_id="e", office="S", geographic_unit_type="county", winsorize=False, beta=1, seed=4191)
